@@ -172,6 +172,12 @@ static void sw_build_domains(void) {
     static const char *z[] = { "(H2O)0", "Fe(OH)0", "(SiO2)0.0", "((H)0)2", "(H2O)00", "Ca(OH)2.", "(CH3)3COH", "((CH3)2(CH2))0.5O", "K2(SO4)", "(Es2O3)2H", "GaAs", "PuO2" };
     xv_rng rg; char buf[256]; rg.s = sw_seed * 0x9E3779B97F4A7C15ULL + 4242;
     for (k = 0; k < (int)(sizeof z / sizeof z[0]); k++) sw_STR[sw_nSTR++] = z[k];
+    { /* very long inputs: a valid formula of ~6000 characters, a 700-character name, bytes >= 0x80 */
+      static char longf[6100], longn[720], hi[40]; int o = 0;
+      while (o < 6000) o += sprintf(longf + o, "(H2O)%d", 1 + o % 7);
+      memset(longn, 'A', 700); longn[0] = 'Q'; longn[700] = 0;
+      for (k = 0; k < 30; k++) hi[k] = (char)(0x80 + 4 * k); hi[30] = 0;
+      sw_STR[sw_nSTR++] = longf; sw_STR[sw_nSTR++] = longn; sw_STR[sw_nSTR++] = hi; }
     for (k = 0; k < 160 && sw_nSTR < 390; k++) { buf[0] = 0; if (k % 2) xv_gen_formula(&rg, buf, sizeof buf - 8, 0); else xv_hostile(&rg, buf, sizeof buf - 8); sw_STR[sw_nSTR++] = strdup(buf); } }
 }
 
